@@ -2606,12 +2606,11 @@ class Convex:
             elif self.xtype == 'F':
                 output = self.multiplier*self.sign*np.log(1+np.exp(value_in)) + value_out
             elif self.xtype == 'P':
-                output = self.multiplier*self.sign*(value_in * np.log(1/value_in)).sum()
+                output = self.multiplier*self.sign*(value_in * np.log(value_in)).sum()
                 output += value_out
             elif self.xtype == 'T':
                 expo = self.params[0] / self.params[1]
-                output = self.multiplier*self.sign*(value_in ** expo) + value_out
-                output += value_out
+                output = self.multiplier*self.sign*(abs(value_in) ** expo) + value_out
             else:
                 raise ValueError('Unsupported convex/concave expression.')
 
@@ -4606,13 +4605,18 @@ class DecConvex(Convex):
                     item += value_out
                     output.append(item)
                 elif self.xtype == 'X':
-                    output.append(self.multiplier*self.sign*np.exp(value_in) + value_out)
+                    item = self.multiplier*self.sign*np.exp(value_in)
+                    if self.sum_axis is not False:
+                        item = item.sum(axis=self.sum_axis)
+                    output.append(item + value_out)
                 elif self.xtype == 'L':
                     item = -self.multiplier*self.sign*np.log(value_in)
+                    if self.sum_axis is not False:
+                        item = item.sum(axis=self.sum_axis)
                     item += value_out
                     output.append(item)
                 elif self.xtype == 'P':
-                    item = self.multiplier*self.sign*(value_in*np.log(1/value_in)).sum()
+                    item = self.multiplier*self.sign*(value_in*np.log(value_in)).sum()
                     item += value_out
                     output.append(item)
                 elif self.xtype == 'G':
